@@ -254,7 +254,11 @@ def probe_permute(net, tree, cnt, rng, nterm=None, amap=None):
     rng.shuffle(perm)
     before = tn.tree_term(tree)
     tensor_dict = lay_out_leaves(tree, {t.tid: np.asarray(net.data[t.dataref]) for t in net.net.tensors.values() if t.tid != -1})
-    node.permute_axes(np.array(perm))
+    try:
+        node.permute_axes(np.array(perm))
+    except Exception as e:
+        fails.append(("permute_axes:exception:" + type(e).__name__, "permutes", repr(e)))
+        return [], fails
     after = tn.tree_term(tree)
     if node.is_leaf:
         tensor_dict[node.tid] = tensor_dict[node.tid].transpose(perm)
@@ -420,6 +424,213 @@ def probe_history(desc, scaffold, rng):
     return fails
 
 
+# ----------------------------------------------------------------------------- contraction - surgery - contraction
+def _ren_scaffold(sc, a, c):
+    return (c if sc == a else sc) if isinstance(sc, int) else [_ren_scaffold(sc[0], a, c), _ren_scaffold(sc[1], a, c)]
+
+
+def _bond_orders(stn):
+    """per bond: the order in which the DISTINCT tensors appear in bond.tids"""
+    out = {}
+    for k, b in stn.bonds.items():
+        seen = []
+        for t in b.tids:
+            if t not in seen:
+                seen.append(t)
+        out[k] = seen
+    return out
+
+
+def rename_target(rng, stn, a, mode):
+    """a new id for tensor `a` that moves it, in the sorted id order, in the way `mode` says (None: impossible)"""
+    ids = set(stn.tensors)
+    nbrs = sorted({t for b in stn.bonds.values() if a in b.tids for t in b.tids if t != a})
+
+    def free_above(x):
+        c = x + 1
+        while c in ids:
+            c += 1
+        return c
+
+    def free_below(x):
+        c = x - 1
+        while c in ids:
+            c -= 1
+        return c
+    if mode == "above-all":
+        return max(ids) + rng.randint(1, 3)
+    if mode == "below-all":                      # negative, below the virtual tensor -1
+        return min(ids) - rng.randint(1, 3)
+    if mode == "across-a-neighbour" and nbrs:
+        t = rng.choice(nbrs)                     # a tensor sharing a bond with `a` (possibly the virtual tensor -1)
+        return free_above(t) if a < t else free_below(t)
+    if mode == "between":
+        gaps = [c for c in range(min(ids) + 1, max(ids)) if c not in ids]
+        return rng.choice(gaps) if gaps else None
+    if mode == "same-side":                      # a different id that keeps the position relative to every neighbour
+        lo = max([t for t in nbrs if t < a] + [min(ids) - 4])
+        hi = min([t for t in nbrs if t > a] + [max(ids) + 4])
+        gaps = [c for c in range(lo + 1, hi) if c not in ids]
+        return rng.choice(gaps) if gaps else None
+    return None
+
+
+RENAME_MODES = ["above-all", "below-all", "across-a-neighbour", "across-a-neighbour", "across-a-neighbour", "between", "same-side"]
+
+
+def gen_surgery_ops(desc, scaffold, rng):
+    """an operation list  contract - surgery - contract - ...  (JSON): the contractions before a surgery step fill
+    whatever the implementation remembers, the renames move a tensor in every direction of the id order"""
+    scratch = tn.build(desc).net
+    ops = [["contract", rng.choice(["einsum", "tree", "both", "both"])]]
+    for _ in range(rng.randint(2, 5)):
+        tids = [t for t in scratch.tensors if t != -1]
+        r = rng.random()
+        if tids and r < 0.7:
+            a = rng.choice(tids)
+            c = rename_target(rng, scratch, a, rng.choice(RENAME_MODES))
+            if c is None or c == -1 or c in scratch.tensors:
+                continue
+            scratch.rename_tensor(a, c)
+            ops.append(["rename_tensor", a, c])
+        elif scratch.bonds and r < 0.85:
+            b = rng.choice(list(scratch.bonds))
+            c = rng.choice([min(scratch.bonds) - rng.randint(1, 2), max(scratch.bonds) + rng.randint(1, 2)])
+            scratch.rename_bond(b, c)
+            ops.append(["rename_bond", b, c])
+        elif scratch.num_open_axes >= 2:
+            pm = list(range(scratch.num_open_axes))
+            rng.shuffle(pm)
+            scratch.transpose(pm)
+            ops.append(["transpose", pm])
+        else:
+            continue
+        ops.append(["contract", rng.choice(["einsum", "tree", "both", "both"])])
+    return ops
+
+
+def probe_surgery_history(desc, scaffold, ops):
+    """contraction - surgery - contraction on ONE network object.  Every contraction is compared with the brute-force
+    defining sum of the CURRENT network (renaming must not change it, transposing transposes it); the network must
+    stay consistent.  Returns ([(sig, expected, observed)], evidence counters)."""
+    from qib.tensor_network.tensor_network import to_full_tensor
+    fails, ev = [], {}
+    net = tn.build(desc)
+    stn = net.net
+    sc = copy.deepcopy(scaffold)
+    last = "construction"
+    val0 = tn.ref_dense(stn, net.data)
+
+    def bump(k):
+        ev[k] = ev.get(k, 0) + 1
+
+    def dense_ok(cnt, amap, ref):
+        cnt = np.asarray(cnt)
+        try:
+            if tuple(cnt.shape[i] for i in amap) != tuple(ref.shape):
+                return False
+            return np.array_equal(to_full_tensor(cnt, list(amap)), ref)
+        except Exception:
+            return False
+
+    for op in ops:
+        kind = op[0]
+        try:
+            if kind == "rename_tensor":
+                before = _bond_orders(stn)
+                stn.rename_tensor(op[1], op[2])
+                sc = _ren_scaffold(sc, op[1], op[2])
+                after = _bond_orders(stn)
+                moved = any([op[2] if t == op[1] else t for t in before[k]] != after[k] for k in before)
+                bump("rename_tensor_changes_the_id_order_on_a_bond" if moved else "rename_tensor_keeps_the_id_order")
+                if op[2] < -1:
+                    bump("rename_tensor_to_an_id_below_the_virtual_tensor")
+                last = kind
+            elif kind == "rename_bond":
+                stn.rename_bond(op[1], op[2])
+                last = kind
+            elif kind == "transpose":
+                net.transpose(list(op[1]))
+                val0 = np.transpose(val0, list(op[1]))
+                last = kind
+            elif kind == "contract":
+                ref = tn.ref_dense(stn, net.data)
+                if ref.shape != val0.shape or not np.array_equal(ref, val0):
+                    fails.append(("%s:changes-the-defining-sum" % last, "unchanged (up to the transposition)", "differs"))
+                    val0 = ref
+                if op[1] in ("einsum", "both") and (net.num_tensors or net.num_open_axes):
+                    try:
+                        c, am = net.contract_einsum()
+                        if not dense_ok(c, am, ref):
+                            fails.append(("contract_einsum:after-%s:not-the-defining-sum-of-the-current-network" % last, "defining sum", "differs"))
+                    except Exception as e:
+                        fails.append(("contract_einsum:after-%s:raises:%s" % (last, type(e).__name__), "contracts", repr(e)[:200]))
+                    bump("contract_einsum_after_" + last)
+                tids = [t for t in stn.tensors if t != -1]
+                if op[1] in ("tree", "both") and tids and not has_idle_bond(stn) \
+                        and not (isinstance(sc, int) and leaf_root_class(stn, sc)):
+                    try:
+                        c, am, _ = net.contract_tree(copy.deepcopy(sc))
+                        if not dense_ok(c, [int(x) for x in am], ref):
+                            fails.append(("contract_tree:after-%s:not-the-defining-sum-of-the-current-network" % last, "defining sum", "differs"))
+                    except Exception as e:
+                        fails.append(("contract_tree:after-%s:raises:%s" % (last, type(e).__name__), "contracts", repr(e)[:200]))
+                    bump("contract_tree_after_" + last)
+                continue
+            else:
+                raise RuntimeError("unknown op " + kind)
+        except Exception as e:
+            fails.append(("%s:raises-on-valid-arguments:%s" % (kind, type(e).__name__), "accepted", repr(e)[:200]))
+            break
+        if not safe(lambda: bool(stn.is_consistent()), False) or not tn.ref_consistent(stn):
+            fails.append(("%s:network-inconsistent-afterwards" % kind, True, False))
+            break
+    return fails, ev
+
+
+def _chain3(dims, ids=(1, 2, 3)):
+    """A[i,j] B[j,k] C[k,l] with bond dimensions dims = (i, j, k, l)"""
+    a, b, c = ids
+    d = dims
+    return {"tensors": [[a, [d[0], d[1]], [0, 1], "A"], [b, [d[1], d[2]], [1, 2], "B"], [c, [d[2], d[3]], [2, 3], "C"],
+                        [-1, [d[0], d[3]], [0, 3], None]], "bonds": None,
+            "data": {"A": D([d[0], d[1]], [(3 * i + 1) % 7 - 3 for i in range(d[0] * d[1])]),
+                     "B": D([d[1], d[2]], [(5 * i + 2) % 7 - 3 for i in range(d[1] * d[2])]),
+                     "C": D([d[2], d[3]], [(2 * i + 3) % 5 - 2 for i in range(d[2] * d[3])])}}
+
+
+_CE, _CT, _CB = ["contract", "einsum"], ["contract", "tree"], ["contract", "both"]
+DIRECTED_SURGERY = [
+    # (name, net, scaffold, ops): a rename that moves a tensor across its neighbour in the id order of their bond
+    ("chain-rename-up-across-neighbour", _chain3((3, 3, 3, 3)), [[1, 2], 3], [_CB, ["rename_tensor", 1, 7], _CB]),
+    ("chain-rename-up-across-neighbour-einsum-only", _chain3((2, 3, 3, 2)), [1, [2, 3]], [_CE, ["rename_tensor", 1, 7], _CE]),
+    ("chain-rename-up-across-neighbour-tree-only", _chain3((2, 3, 3, 2)), [[3, 2], 1], [_CT, ["rename_tensor", 1, 7], _CT]),
+    ("chain-rename-down-across-neighbour", _chain3((2, 2, 3, 3)), [[1, 2], 3], [_CB, ["rename_tensor", 3, 0], _CB, ["rename_tensor", 2, -4], _CB]),
+    ("chain-rename-below-the-virtual-tensor", _chain3((2, 3, 2, 3)), [1, [2, 3]], [_CB, ["rename_tensor", 1, -5], _CB, ["rename_tensor", 3, -2], _CB]),
+    ("chain-rename-keeps-order", _chain3((2, 3, 2, 3), (4, 6, 9)), [[4, 6], 9], [_CB, ["rename_tensor", 4, 5], _CB, ["rename_tensor", 9, 7], _CB]),
+    ("chain-differing-dimensions-rename-middle", _chain3((2, 3, 1, 2)), [[1, 2], 3], [_CB, ["rename_tensor", 2, 8], _CB, ["rename_tensor", 8, 0], _CB]),
+    ("chain-rename-between-other-surgery", _chain3((2, 3, 3, 2)), [[1, 2], 3],
+     [_CB, ["transpose", [1, 0]], _CB, ["rename_tensor", 2, 9], _CT, ["rename_bond", 1, 11], _CE, ["rename_tensor", 9, -3], _CB]),
+    ("hyper-bond-rename-middle-to-top",
+     {"tensors": [[2, [2, 3], [5, 6], "a"], [4, [2, 2], [5, 7], "b"], [6, [2, 3, 2], [5, 6, 7], "c"], [-1, [2], [5], None]], "bonds": None,
+      "data": {"a": D([2, 3], [1, 2, -1, 0, 3, 1]), "b": D([2, 2], [1, -1, 2, 1]), "c": D([2, 3, 2], [(i * 5 + 1) % 7 - 3 for i in range(12)])}},
+     [[2, 4], 6], [_CB, ["rename_tensor", 4, 9], _CB, ["rename_tensor", 2, -6], _CB]),
+    ("single-tensor-rename-below-the-virtual-tensor",
+     {"tensors": [[3, [2, 3], [0, 1], "a"], [-1, [2, 3], [0, 1], None]], "bonds": None, "data": {"a": D([2, 3], [1, 2, 3, 4, 5, 6])}},
+     3, [_CB, ["rename_tensor", 3, -4], _CB]),
+]
+
+
+def run_surgery(ctx, desc, sc, sops):
+    inp = tn.to_jsonable({"net": desc, "scaffold": sc, "kind": "surgery-history", "ops": sops})
+    fails, ev = probe_surgery_history(desc, sc, sops)
+    for sig, e, g in fails:
+        ctx.fail(sig, inp, e, g)
+    for k, v in ev.items():
+        ctx.count(k, v)
+    ctx.count("surgery_histories")
+
+
 def chain_desc(N):
     """N matrices [[1,1],[0,1]] in a row: N+1 bonds, value [[1,N],[0,1]]"""
     return {"tensors": [[i, [2, 2], [i, i + 1], "m"] for i in range(N)] + [[-1, [2, 2], [0, N], None]],
@@ -483,7 +694,10 @@ def run(ctx):
                      "shared open bonds, identity wires, negative ids) with small Gaussian-integer data; open-structure networks (0-2 tensors, several identity wires at "
                      "every position relative to repeated open bonds, all dimensions independently from {1,2,3}); contraction HISTORIES per network (both "
                      "contractions twice, perform_tree_contraction repeatedly on one dictionary, permute_axes on inner node / root, a replaced leaf tensor, a second "
-                     "tree, then transpose/rename/merge on the same object) against the brute-force defining sum of the current state; scaffolds: all binary trees with "
+                     "tree, then transpose/rename/merge on the same object) against the brute-force defining sum of the current state; "
+                     "contraction - surgery - contraction histories (per network + directed chains / hyper-bond): contract_einsum / contract_tree / both, then "
+                     "rename_tensor to an id above all / below all (negative, below the virtual tensor) / across a neighbour on a common bond / into a gap / "
+                     "on the same side, rename_bond, transpose, each followed by a contraction again, bond dimensions independent; scaffolds: all binary trees with "
                      "both child orders for n<=3 (thorough: n<=5), random otherwise. non-trivial = >=2 tensors and one of hyper-bond, "
                      "multi-edge, shared open bond, self-trace")
     ctx.lib(["TN/TNCheck", "TN/TNTreeCheck", "TN/TNConsistentConv", "TN/TNGenBase", "TN/TNRootPermute"])
@@ -505,6 +719,9 @@ def run(ctx):
     exhaustive_budget = {4: 20 if ctx.thorough else 1, 5: 4 if ctx.thorough else 0, 6: 0}
     ntrees = 0
     nhist = 0
+    nsurg = 0
+    for name, desc, sc, sops in DIRECTED_SURGERY:
+        run_surgery(ctx, desc, sc, sops)
     for name, desc, feats in nets:
         inp = {"net": desc}
         o = probe_net(desc)
@@ -545,6 +762,7 @@ def run(ctx):
         else:
             scaffolds = [tn.rand_scaffold(rng, tids) for _ in range(6 if ctx.thorough else 3)]
         did_history = False
+        did_surgery = False
         for sc in scaffolds:
             tinp = dict(inp, scaffold=sc)
             obs, fails, status = probe_tree(net, ref, sc, rng)
@@ -557,6 +775,12 @@ def run(ctx):
                 for sig, e, g in probe_history(desc, sc, _random.Random(hseed)):
                     ctx.fail(sig, tn.to_jsonable(dict(tinp, kind="history", hseed=hseed)), e, g)
                 ctx.count("contraction_histories")
+            if status == "ok" and not did_surgery and nsurg < (600 if ctx.thorough else 150) \
+                    and tn.ref_size(net.net)[0] * max(1, tn.ref_size(net.net)[1]) <= 4000:
+                nsurg += 1
+                did_surgery = True
+                sops = gen_surgery_ops(desc, sc, rng)
+                run_surgery(ctx, desc, sc, sops)
             ctx.count("tree_" + status)
             for sig, e, g in fails:
                 ctx.fail(sig, tn.to_jsonable(tinp), e, g)
@@ -620,6 +844,11 @@ def replay(ctx, data):
     if inp.get("kind") == "history":
         import random as _random
         for s, e, g in probe_history(inp["net"], inp["scaffold"], _random.Random(int(inp["hseed"]))):
+            if s == sig:
+                ctx.fail(sig, inp, e, g)
+        return
+    if inp.get("kind") == "surgery-history":
+        for s, e, g in probe_surgery_history(inp["net"], inp["scaffold"], inp["ops"])[0]:
             if s == sig:
                 ctx.fail(sig, inp, e, g)
         return
